@@ -276,8 +276,10 @@ inductive Outcome
   | rejected
   | executed (r : TxResult)
 
-/-- `transact_preverified_inner` after validation -/
-def execute (fuel : Nat) (e : Env) (spec initialGas floorGas : Nat) (w : World) : R (TxResult × World) := do
+/-- `transact_preverified_inner` up to the first frame: `load_accounts`, `set_precompiles`, `deduct_caller`, the EIP-7702
+list, `exec.call` / `exec.create`. Result: the first frame or its early result, the world, whether the transaction is a
+create, and the EIP-7702 refund -/
+def prepare (e : Env) (spec initialGas : Nat) (w : World) : R (FrameOrResult × World × Bool × Nat) := do
   let cfg := e.toCfg spec
   let w := loadAccounts e spec w
   let w ← deductCaller e spec w
@@ -285,22 +287,28 @@ def execute (fuel : Nat) (e : Env) (spec initialGas floorGas : Nat) (w : World) 
   let (w, eip7702Refund) ← applyAuthList e spec w
   -- first frame
   let mem0 := Memory.new
-  let (first, w, isCreate) ← (match e.tx.to with
-    | some to => do
-      let inputs : Interp.CallInputs :=
-        { input := e.tx.data, retStart := 0, retEnd := 0, gasLimit := gasLimit, bytecodeAddress := to,
-          targetAddress := to, caller := e.tx.caller, valueTransfer := true, value := e.tx.value, scheme := .call,
-          isStatic := false, isEof := false }
-      let (f, w) ← makeCallFrame cfg w inputs mem0
-      pure (f, w, false)
-    | none => do
-      let inputs : Interp.CreateInputs :=
-        { caller := e.tx.caller, salt := none, value := e.tx.value, initCode := e.tx.data, gasLimit := gasLimit }
-      let (f, w) ← makeCreateFrame cfg w inputs mem0
-      pure (f, w, true) : R (FrameOrResult × World × Bool))
-  let (res, w) ← (match first with
-    | .frame f => runLoop cfg fuel [f] w
-    | .result r => pure (r, w))
+  match e.tx.to with
+  | some to => do
+    let inputs : Interp.CallInputs :=
+      { input := e.tx.data, retStart := 0, retEnd := 0, gasLimit := gasLimit, bytecodeAddress := to,
+        targetAddress := to, caller := e.tx.caller, valueTransfer := true, value := e.tx.value, scheme := .call,
+        isStatic := false, isEof := false }
+    let (f, w) ← makeCallFrame cfg w inputs mem0
+    pure (f, w, false, eip7702Refund)
+  | none => do
+    let inputs : Interp.CreateInputs :=
+      { caller := e.tx.caller, salt := none, value := e.tx.value, initCode := e.tx.data, gasLimit := gasLimit }
+    let (f, w) ← makeCreateFrame cfg w inputs mem0
+    pure (f, w, true, eip7702Refund)
+
+/-- `run_the_loop` on the first frame, or its early result -/
+def runFirst (cfg : Cfg) (fuel : Nat) (first : FrameOrResult) (w : World) : R (Interp.ChildResult × World) :=
+  match first with
+  | .frame f => runLoop cfg fuel [f] w
+  | .result r => pure (r, w)
+
+/-- the gas meter of the transaction after `last_frame_return`, `refund` and the EIP-7623 floor -/
+def finalGas (e : Env) (spec floorGas eip7702Refund : Nat) (res : Interp.ChildResult) : Gas.Gas :=
   -- last_frame_return
   let gas := Gas.newSpent e.tx.gasLimit
   let gas :=
@@ -311,7 +319,12 @@ def execute (fuel : Nat) (e : Env) (spec initialGas floorGas : Nat) (w : World) 
   let gas := Gas.recordRefund gas (Gas.u64AsI64 eip7702Refund)
   let gas := Gas.setFinalRefund gas (enabled spec GasCalc.SpecId.LONDON)
   -- EIP-7623 floor
-  let gas := if Gas.spentSubRefunded gas < floorGas then Gas.setRefund (Gas.setSpent gas floorGas) 0 else gas
+  if Gas.spentSubRefunded gas < floorGas then Gas.setRefund (Gas.setSpent gas floorGas) 0 else gas
+
+/-- `reimburse_caller`, `reward_beneficiary`, `output` -/
+def finish (e : Env) (spec floorGas eip7702Refund : Nat) (isCreate : Bool) (res : Interp.ChildResult) (w : World) :
+    R (TxResult × World) := do
+  let gas := finalGas e spec floorGas eip7702Refund res
   -- reimburse_caller
   let price := e.effectiveGasPrice
   let (w, _) ← w.loadAccount e.tx.caller
@@ -341,25 +354,39 @@ def execute (fuel : Nat) (e : Env) (spec initialGas floorGas : Nat) (w : World) 
                  created := none, logs := [] }
   pure (r, w)
 
-/-- `Evm::transact` on a fresh `Evm` (journal `JournaledState::new(spec, ∅)`); `spec` is the SpecId given to the
-builder, canonicalised like `spec_to_generic!` does -/
-def transact (fuel : Nat) (w : World) (e : Env) (spec : Nat) : R (Outcome × World) := do
-  let spec := GasCalc.canon spec
+/-- `transact_preverified_inner` after validation -/
+def execute (fuel : Nat) (e : Env) (spec initialGas floorGas : Nat) (w : World) : R (TxResult × World) := do
+  let (first, w, isCreate, eip7702Refund) ← prepare e spec initialGas w
+  let (res, w) ← runFirst (e.toCfg spec) fuel first w
+  finish e spec floorGas eip7702Refund isCreate res w
+
+/-- `preverify_transaction_inner`: `validation.env`, `validation.initial_tx_gas`, `validation.tx_against_state`.
+`none` = rejected; else the world with the caller loaded, the initial and the floor gas -/
+def preverify (w : World) (e : Env) (spec : Nat) : R (Option (World × Nat × Nat)) := do
   -- validation.env
-  if !(← validateEnv e spec) then return (.rejected, w)
+  if !(← validateEnv e spec) then return none
   -- validation.initial_tx_gas
   let (initialGas, floorGas) ← ofOpt "initcode_cost"
     (GasCalc.calculateInitialTxGas spec e.tx.data e.tx.to.isNone (e.tx.accessList.map (·.keys.length))
       (match e.tx.authList with | some l => l.length | none => 0))
-  if initialGas > e.tx.gasLimit then return (.rejected, w)
-  if enabled spec GasCalc.SpecId.PRAGUE ∧ floorGas > e.tx.gasLimit then return (.rejected, w)
+  if initialGas > e.tx.gasLimit then return none
+  if enabled spec GasCalc.SpecId.PRAGUE ∧ floorGas > e.tx.gasLimit then return none
   -- validation.tx_against_state
   let (w, _) ← w.loadCode e.tx.caller
   let acc ← w.acct e.tx.caller
   let h ← ofOpt "code not cached" acc.info.code
   let code ← ofOpt "code_by_hash" (w.codeOf h)
-  if !validateAgainstState e spec code acc.info then return (.rejected, w)
-  let (r, w) ← execute fuel e spec initialGas floorGas w
-  pure (.executed r, w)
+  if !validateAgainstState e spec code acc.info then return none
+  return some (w, initialGas, floorGas)
+
+/-- `Evm::transact` on a fresh `Evm` (journal `JournaledState::new(spec, ∅)`); `spec` is the SpecId given to the
+builder, canonicalised like `spec_to_generic!` does -/
+def transact (fuel : Nat) (w : World) (e : Env) (spec : Nat) : R (Outcome × World) := do
+  let spec := GasCalc.canon spec
+  match ← preverify w e spec with
+  | none => pure (.rejected, w)
+  | some (w', initialGas, floorGas) => do
+    let (r, w'') ← execute fuel e spec initialGas floorGas w'
+    pure (.executed r, w'')
 
 end Revm.Model.Evm
